@@ -512,4 +512,33 @@ theorem pathStem_trailing_dot (base : Str) :
   have := splitLastDot_append base [] (by simp)
   simp [pathStem, pathSuffix, this]
 
+
+/-! ### the final path component -/
+
+theorem takeWhile_ne_slash_append (l t : Str) (h : '/' ∉ l) : (l ++ '/' :: t).takeWhile (· ≠ '/') = l := by
+  induction l with
+  | nil => simp
+  | cons x l ih =>
+    have hx : x ≠ '/' := fun e => h (by simp [e])
+    simp only [List.cons_append, List.takeWhile_cons, hx, ne_eq, not_false_eq_true, decide_true, if_true]
+    rw [ih (fun hm => h (by simp [hm]))]
+
+/-- the directory part — however long, with dots, spaces, any characters — does not matter -/
+theorem pathName_join (dir name : Str) (h : '/' ∉ name) : pathName (dir ++ '/' :: name) = name := by
+  have hr : (dir ++ '/' :: name).reverse = name.reverse ++ '/' :: dir.reverse := by simp
+  have hn : '/' ∉ name.reverse := by simpa using h
+  simp only [pathName, hr, takeWhile_ne_slash_append _ _ hn, List.reverse_reverse]
+
+theorem takeWhile_ne_slash_all (l : Str) (h : '/' ∉ l) : l.takeWhile (· ≠ '/') = l := by
+  induction l with
+  | nil => rfl
+  | cons x l ih =>
+    have hx : x ≠ '/' := fun e => h (by simp [e])
+    simp only [List.takeWhile_cons, hx, ne_eq, not_false_eq_true, decide_true, if_true]
+    rw [ih (fun hm => h (by simp [hm]))]
+
+theorem pathName_no_slash (name : Str) (h : '/' ∉ name) : pathName name = name := by
+  have hn : '/' ∉ name.reverse := by simpa using h
+  simp only [pathName, takeWhile_ne_slash_all _ hn, List.reverse_reverse]
+
 end Pyxv.Backends
